@@ -151,15 +151,7 @@ func (p *Pair) nonBeat() int {
 // written.
 func (p *Pair) sawOpen(side int, id uint64) bool {
 	found := false
-	p.link.Locked(func() {
-		ms := p.dec[side].msgs
-		for i := len(ms) - 1; i >= 0; i-- {
-			if ms[i].Kind == kOpen && ms[i].ID == id {
-				found = true
-				return
-			}
-		}
-	})
+	p.link.Locked(func() { found = p.dec[side].opened[id] })
 	return found
 }
 
